@@ -99,11 +99,10 @@ pub(crate) fn parse_chunk(data: &[u8]) -> Result<ColorPalette> {
         )));
     }
 
-    let count = last_color_index - first_color_index + 1;
     //let mut entries = Vec::with_capacity(count as usize);
     let mut entries = IntMap::default();
 
-    for id in 0..count {
+    for id in first_color_index..=last_color_index {
         let flags = reader.word()?;
         let red = reader.byte()?;
         let green = reader.byte()?;
@@ -115,7 +114,6 @@ pub(crate) fn parse_chunk(data: &[u8]) -> Result<ColorPalette> {
         } else {
             None
         };
-        let id = id + first_color_index;
         entries.insert(
             id,
             ColorPaletteEntry {
